@@ -84,6 +84,15 @@ def spec_blocks(spec_sx, lineno_of, inline=True):
             for k, fl in b['late'].items():
                 if k not in b['syms']:
                     b['syms'][k] = fl
+            # an inlined iteration variable that a nested block also needs from further out is turned into a
+            # cell of this block by CPython (analyze_cells after inlining) and is then no longer passed on to
+            # the enclosing blocks: leave those names out of the comparison in the enclosing blocks as well
+            if b.get('aside') and b['parent'] in blocks:
+                blocks[b['parent']].setdefault('aside_up', set()).update(b['aside'])
+            if b.get('aside_up'):
+                b.setdefault('aside', set()).update(b['aside_up'])
+                if b['parent'] in blocks:
+                    blocks[b['parent']].setdefault('aside_up', set()).update(b['aside_up'])
         for bid in order:
             if blocks[bid]['parent'] not in blocks:
                 process(bid)
